@@ -30,6 +30,9 @@ func init() {
 		"fmt.Sprint":   inSprintf,
 
 		"(*os.File).WriteString": func(ip *Interp, fn *ssa.Function, a []Value) Value {
+			if h, ok := a[0].(*HostObj); ok && h.Kind == "os.Stdout" {
+				ip.stdout = append(ip.stdout, ip.strBytes(a[1].(*StrV))...)
+			}
 			return TupleV{ip.p.T.Const(64, uint64(a[1].(*StrV).Len())), IfaceV{}}
 		},
 		"(*os.File).Write": func(ip *Interp, fn *ssa.Function, a []Value) Value {
@@ -309,6 +312,19 @@ func inSprintf(ip *Interp, fn *ssa.Function, a []Value) Value {
 func inFprint(ip *Interp, fn *ssa.Function, a []Value) Value {
 	T := ip.p.T
 	w, _ := a[0].(IfaceV)
+	if h, ok := w.V.(*HostObj); ok && h.Kind == "os.Stdout" {
+		var s *StrV
+		switch fn.Name() {
+		case "Fprintf":
+			s = ip.formatArgs("f", a[1:])
+		case "Fprintln":
+			s = ip.formatArgs("ln", a[1:])
+		default:
+			s = ip.formatArgs("", a[1:])
+		}
+		ip.stdout = append(ip.stdout, ip.strBytes(s)...)
+		return TupleV{T.Const(64, uint64(s.Len())), IfaceV{}}
+	}
 	if w.T == nil || strings.HasSuffix(w.T.String(), "os.File") {
 		return TupleV{T.Const(64, 0), IfaceV{}}
 	}
